@@ -73,8 +73,8 @@ func c10InsDel(c c02Case) *Violation {
 	got := byLabel(back.Features())
 	for _, f := range c.Host {
 		gg := got[f.label()]
-		if len(gg) != 1 {
-			return viol("presence", "%s: host feature %s present %d times", what, f.label(), len(gg))
+		if len(gg) != multOf(c.Host, f) {
+			return viol("presence", "%s: host feature %s present %d times, want %d", what, f.label(), len(gg), multOf(c.Host, f))
 		}
 		siteCheck = nil
 		if !hasResidue(den(f.Loc)) {
@@ -155,7 +155,7 @@ func c10CutCat(c c10Case) *Violation {
 	if !bytes.Equal(cat.Bytes(), orig) {
 		return viol("bytes", "%s: residues %q, want %q", what, cat.Bytes(), orig)
 	}
-	union := map[string][]Elem{}
+	union, perFeature := map[string][]Elem{}, map[string][][]Elem{}
 	for _, f := range cat.Features() {
 		ast, ok := fromGts(f.Loc)
 		if !ok || !ast.wellFormed() {
@@ -165,6 +165,7 @@ func c10CutCat(c c10Case) *Violation {
 			return viol("bounds", "%s: location %s outside the sequence", what, ast)
 		}
 		union[labelOf(f)] = append(union[labelOf(f)], den(ast)...)
+		perFeature[labelOf(f)] = append(perFeature[labelOf(f)], den(ast))
 	}
 	known := map[string]bool{}
 	for _, f := range c.Feat {
@@ -172,6 +173,24 @@ func c10CutCat(c c10Case) *Violation {
 		want, got := resSet(den(f.Loc)), resSet(union[f.label()])
 		if fmt.Sprint(want) != fmt.Sprint(got) {
 			return viol("denotation", "%s: feature %s %s: pieces denote %v, original %v", what, f.label(), f.Loc, got, want)
+		}
+		// a table may list a feature twice, verbatim: every copy is cut and carried along, so every residue of the
+		// feature lies in as many pieces as there are copies
+		if m := multOf(c.Feat, f); m > 1 {
+			for _, ps := range want {
+				n := 0
+				for _, d := range perFeature[f.label()] {
+					for _, e := range d {
+						if !e.Site && e.Pos == ps.Pos && e.Rev == ps.Rev {
+							n++
+							break
+						}
+					}
+				}
+				if n != m {
+					return viol("copies", "%s: feature %s %s is listed %d times; residue %v lies in %d of the pieces, want %d", what, f.label(), f.Loc, m, ps, n, m)
+				}
+			}
 		}
 	}
 	for l := range union {
@@ -254,7 +273,7 @@ func c10Gen(t *rapid.T) c10Case {
 		hot = append(hot, hotAround(L, k, 0)...)
 	}
 	cfg := locCfg{L: L, Hot: hot, MaxDepth: 3, MaxParts: scopeParts(4), Ambig: true, Sites: true}
-	return c10Case{Mode: "cutcat", L: L, Cuts: cuts, Feat: genFeats(t, cfg, drawCount(t, 0, 4, 9, "nfeat"), "f", true)}
+	return c10Case{Mode: "cutcat", L: L, Cuts: cuts, Feat: addTwins(t, genFeats(t, cfg, drawCount(t, 0, 4, 9, "nfeat"), "f", true), "f")}
 }
 
 func TestC10(t *testing.T) {
@@ -265,6 +284,10 @@ func TestC10(t *testing.T) {
 		return
 	}
 	rapidLargePart(t, c10Prop, st, pick(1500, 20000), c10Gen)
+	if t.Failed() {
+		return
+	}
+	rapidTwinsPart(t, c10Prop, st, pick(4000, 40000), c10Gen)
 	if t.Failed() {
 		return
 	}
